@@ -176,6 +176,10 @@ def sink(ctx):
     ctx.floor('SINK', 'sink-write call sites', n, 6)
 
 
+DISCARD_REVIEWED = {
+    ('CompressionCodecState::new', 'unwrap_or'): (1, 'zstd level bound: i32 -> u8 conversion of a library constant, not an I/O result'),
+    ('<Writer as Drop>::drop', 'unwrap_or'): (1, 'catch_unwind(..).unwrap_or(Ok(())) while already panicking: the Err is a panic payload, Drop cannot report it'),
+}
 RESULT_DROP_REVIEWED = {
     '<object_container_file_encoding::writer::Writer as core::ops::drop::Drop>::drop': 'Drop cannot return the error; documented, debug-asserts',
 }
@@ -250,3 +254,27 @@ def errors(ctx):
                    ok, short_loc(t.get('span')), 'Result of %s is %s' % (strip_generics(cname(t))[-80:], 'consumed (branched on, converted or returned)' if ok else 'DROPPED'),
                    nontrivial=False)
     ctx.floor('ERRORS', 'fallible calls in the writer module', n, 30)
+    # ... and no error is turned into a value: Result adaptors that can swallow an Err are a closed, reviewed set
+    from .c17 import ERROR_DISCARDING
+    found = []
+    m = 0
+    used = {}
+    for b in f.body_list:
+        fl = fn_label(b)
+        if not (fl.startswith('object_container_file_encoding::writer::') or fl.startswith('<object_container_file_encoding::writer::')):
+            continue
+        for bb, t in b.calls():
+            if b.is_cleanup(bb):
+                continue
+            c = strip_generics(cname(t))
+            if 'result::Result::' in c:
+                m += 1
+                if c.endswith(ERROR_DISCARDING):
+                    key = (short_fn(fl), c.rsplit('::', 1)[1])
+                    if key in DISCARD_REVIEWED and used.get(key, 0) < DISCARD_REVIEWED[key][0]:
+                        used[key] = used.get(key, 0) + 1
+                    else:
+                        found.append('%s in %s' % key[::-1])
+    ctx.ob('ERRORS', 'no-unreviewed-error-discarding-adaptor', not found, None,
+           'Result adaptors that can swallow an error in the container writer module, beyond the reviewed ones (%s): %s' % (
+               '; '.join('%s in %s: %s' % (k[1], k[0], v[1]) for k, v in sorted(DISCARD_REVIEWED.items())), found or 'none'))
